@@ -46,7 +46,7 @@ def _job(args):
     # then reports it as inconclusive) instead of hanging the check
     import faulthandler
     budget = float(os.environ.get("VERIF_JOB_BUDGET_S", "480" if tier == "quick" else "3000"))
-    limit = float(os.environ.get("VERIF_JOB_HARD_LIMIT_S", str(1.5 * budget + 180)))
+    limit = float(os.environ.get("VERIF_JOB_HARD_LIMIT_S", str(min(1.5 * budget + 180, 1500.0))))
     faulthandler.dump_traceback_later(limit, exit=True)
     try:
         st = HN.run_job(hdef, case, tier=tier, seed=seed)
